@@ -6,6 +6,7 @@ LEVEL = 'other'
 TARGETS = ['selfies/bond_constraints.py::set_semantic_constraints',
            'selfies/bond_constraints.py::get_bonding_capacity',
            'selfies/bond_constraints.py::get_semantic_robust_alphabet']
+ASSUMPTIONS = ['constraint-table values of type bool (True/False pass isinstance(value, int)) are not modelled; keys of the table passed to set_semantic_constraints are assumed to be str', 'lru_cache is modelled by a per-function memo flag (stale after a write of _current_constraints, clean after cache_clear()); the dict iteration order is abstract (ghost key vector enumerating exactly the present keys)']
 EXPLANATION = (
     "BOUNDED stand-in (not counted as proved) plus every deductive clause listed in coverage.clauses: for each of 12 "
     "accepted tables (presets, rare elements, multi-digit and negative charges, capacity 0 and > 8), switched in "
